@@ -123,6 +123,8 @@ def _on_list_rules(ctx):
         ("fixed-list", dict(fixed_on_time_steps=[0, 3, 4, 8]), lambda t: t in (0, 3, 4, 8)),
         ("fixed-list-overrides-window", dict(fixed_on_time_steps=[7, 2], start_time=Fr(5)), lambda t: t in (2, 7)),
         ("always-off", dict(is_always_off=True), lambda t: False),
+        ("empty-fixed-list", dict(fixed_on_time_steps=[]), lambda t: False),
+        ("empty-fixed-list-overrides-window", dict(fixed_on_time_steps=[], start_time=Fr(2), end_time=Fr(5)), lambda t: False),
         ("default", dict(), lambda t: True),
     ]
     for tag, upd, oracle in cases:
